@@ -259,7 +259,8 @@ def op_wire(op):
         return "L " + enc_str(op[1])
     if k == "S":
         _, node, child, vtype, value, ack = op
-        return f"S {node} {child} {vtype} {enc_str(value)} {'-' if ack is None else ack}"
+        vt = f"i{vtype}" if isinstance(vtype, int) else "s" + enc_str(str(vtype))
+        return f"S {node} {child} {vt} {enc_str(value)} {'-' if ack is None else ack}"
     if k == "U":
         _, nids, fwt, fwv, image = op
         nid = ",".join(map(str, nids)) if nids else "-"
